@@ -250,6 +250,16 @@ def run(ctx):
                 return (72, 328)
         if call_is(ts, "len") and strip(ts[2][0]) == ("param", dp):
             return (72, 328)
+        if call_is(ts, "len") and strip(ts[2][0])[0] == "slice":
+            # len(P[a:b]) for constant a, b over the packet (or the packet cut to its declared length - the same bytes for a valid packet)
+            sl_ = strip(ts[2][0])
+            base = strip(sl_[1])
+            if base[0] == "slice" and strip(base[1]) == ("param", dp) and base[2] is None and base[3] is not None and valid_leaf(base[3]) == (72, 328) and base[4] is None:
+                base = ("param", dp)
+            if base == ("param", dp) and sl_[4] is None and all(b is None or (is_const(b) and isinstance(b[1], int)) for b in (sl_[2], sl_[3])):
+                lo_, hi_ = (None if sl_[2] is None else sl_[2][1]), (None if sl_[3] is None else sl_[3][1])
+                ends = [len(range(n_)[lo_:hi_]) for n_ in (72, 328)]
+                return (min(ends), max(ends))
         return None
     for pc2, exc, node2, _st in ds.raises:
         if not pc2:
